@@ -62,14 +62,42 @@ class Crypto (B : Type) where
   /-- the empty byte string (VerifierKey of a 3P caveat that was not added yet) -/
   empty : B
 
+/-- the algebraic laws of the interface that the generic theorems use.  They are proved for the
+symbolic instance; for the concrete instance they are the standard correctness properties of
+AEAD open/seal, of the msgpack codec (Lemmas/Codec.lean) and of byte-string equality, and are
+validated by the correspondence rather than proved (the primitives are modelled, not verified). -/
+class LawfulCrypto (B : Type) [Crypto B] : Prop where
+  ctEq_iff : ∀ a b : B, Crypto.ctEq a b = true ↔ a = b
+  kidEq_iff : ∀ a b : B, Crypto.kidEq a b = true ↔ a = b
+  unsealKey_sealKey : ∀ t n rn : B, Crypto.unsealKey t (Crypto.sealKey t n rn) = some rn
+  openTicket_sealTicket : ∀ (ka n dk : B) (cs : List (Cav B)),
+    Crypto.openTicket ka (Crypto.sealTicket ka n dk cs) = .ok dk cs
+  hasPrefix_bindId : ∀ t : B, Crypto.hasPrefix (Crypto.digest t) (Crypto.bindId t) = true
+  /-- equal encodings are MACed alike -/
+  sameEnc_mac : ∀ (c d : Cav B) (t : B), Crypto.sameEnc c d = true → Crypto.macCav t c = Crypto.macCav t d
+  /-- whether a caveat can be encoded does not depend on the key -/
+  macCav_isSome : ∀ (c : Cav B) (t t' : B), (Crypto.macCav t c).isSome = (Crypto.macCav t' c).isSome
+
 variable {B : Type} [Crypto B]
 open Crypto
 
 /-! ### verification -/
 
+mutual
+/-- the caveat is a wrapper that contains an attestation at some depth.  Such a caveat can never
+clear a request (the inner attestation always prohibits), and verification refuses it so that an
+attestation cannot be smuggled past the proof/trust checks inside a wrapper (repair of F1). -/
+def Cav.wrapsAttestation : Cav B → Bool
+  | .ifPresent _ ifs _ => anyAttestationL ifs
+  | _ => false
+def anyAttestationL : CavList B → Bool
+  | .nil => false
+  | .cons c cs => c.isAttestation || Cav.wrapsAttestation c || anyAttestationL cs
+end
+
 inductive VErr
   | unfinalized | noDischarge | unsealVK | boundElsewhere | attestationInNonProof
-  | encodeErr | dischargeFailed | invalid
+  | wrappedAttestation | encodeErr | dischargeFailed | invalid
   deriving DecidableEq, Repr, Inhabited
 
 /-- a third-party caveat waiting for its discharge: candidates (caller's order) and the key `rn` -/
@@ -106,6 +134,7 @@ def walk (proof trustAtt : Bool) (lookup : B → Option (List (Mac B))) (parentI
         if parentIds.any (fun bid => hasPrefix bid id) then .ok s else .error .boundElsewhere
       | c =>
         if c.isAttestation && !proof then .error .attestationInNonProof
+        else if c.wrapsAttestation then .error .wrappedAttestation
         else if !c.isAttestation || trustAtt then .ok { s with ret := s.ret ++ [c] } else .ok s
     match step with
     | .error e => .error e
@@ -195,7 +224,7 @@ def AddItem.asCav : AddItem B → Cav B
   | .new3p loc ticket _ _ => .tp loc (Crypto.empty) ticket
 
 inductive AErr
-  | finalizedProof | encodeErr | attestationOnNonProof | duplicate3P
+  | finalizedProof | encodeErr | attestationOnNonProof | wrappedAttestation | duplicate3P
   deriving DecidableEq, Repr, Inhabited
 
 /-- `dedup`: drop items whose encoding is already in the token or earlier in the list -/
@@ -219,6 +248,7 @@ def addLoop : List (AddItem B) → Mac B → List Bytes → Mac B × Option AErr
     match it with
     | .plain c =>
       if c.isAttestation && !m.nonce.proof then (m, some .attestationOnNonProof) else
+      if c.wrapsAttestation then (m, some .wrappedAttestation) else
       match macCav m.tail c with
       | none => ({ m with cavs := m.cavs ++ [c] }, some .encodeErr)
       | some t => addLoop rest { m with cavs := m.cavs ++ [c], tail := t } seen
